@@ -36,7 +36,7 @@ TRUSTED = TRUSTED_BASE + [
 RULE = ("fmtcat_sep catalogue: all 14 valid I/L/T/C combinations uniform across components, component-only (i, l, t, iltc per "
         "component) and two mixed formats, in radix 10 and as hex floats (16/2/10, 'p'), each with its separator-free counterpart; "
         "floats f64 (+ f32 sample) and integers i32/u64. Inputs: every string up to length 3 over {+,-,0,1,9|f,_,.,e|p,x}, every "
-        "grammar-plausible string up to length 5 (quick; +length 6 on a seed-rotated third of the formats) / 6 (thorough), junk-suffixed "
+        "grammar-plausible string up to length 6 (quick) / 7 (thorough), junk-suffixed "
         "strings for the partial parsers, digit runs of 0-30 digits per component (8-digit fast path, >19 significant digits, leading "
         "zeros) with separators sprinkled at leading / internal / trailing / consecutive positions of each component, and the "
         "separator-free grid of the same lengths. Second stage: every accepted input stripped (R1), every accepted separator-free "
@@ -259,6 +259,43 @@ def sepfree_grid(f, rng, dense):
     return out
 
 
+def _midpoints_dec(rng, n):
+    """(integer digits, fraction digits) of exact midpoints between adjacent f64 values in [1, 2^53]"""
+    from fractions import Fraction
+    out = []
+    for e in ([0, 3, 10, 20, 26, 40, 52] * n)[:n]:
+        m = (1 << 52) | rng.getrandbits(52)
+        mid = Fraction(2 * m + 1, 1 << (53 - e)) if e <= 52 else Fraction((2 * m + 1) << (e - 53))
+        k = mid.denominator.bit_length() - 1
+        digits = str(mid.numerator * 5 ** k)
+        out.append((digits[:len(digits) - k], digits[len(digits) - k:]) if k else (digits, ""))
+    return out
+
+
+def halfway_strings(f, rng):
+    """inputs on (or a hair beside) the midpoint of two adjacent floats: only the slow big-integer path can decide the
+    rounding, from the digits after position 19 — so a re-scan of the stored integer / fraction slices that loses
+    or invents digits shows in the value. Separators at every position kind of each component (enabled or not)."""
+    out = []
+    pairs = []
+    if f.radix == "dec":
+        for ip, fp in _midpoints_dec(rng, 7):
+            pairs += [(ip, fp), (ip, fp + "1"), (ip, fp[:max(1, 24 - len(ip))])]
+    else:
+        for _ in range(5):
+            m = "1" + "".join(rng.choice("0123456789abcdef") for _ in range(rng.choice([3, 9, 12])))
+            fr = "".join(rng.choice("0123456789abcdef") for _ in range(13 - (len(m) - 1)))
+            pairs += [(m, fr + "8"), (m, fr + "80000000001"), (m, fr + "7ffffffffff")]
+    modes_i = ("none", "i", "l", "t", "ic", "all")
+    modes_f = ("none", "l", "i", "t", "lc", "ic", "tc", "all")
+    for ip, fp in pairs:
+        for _ in range(5):
+            wi, wf = rng.choice(modes_i), rng.choice(modes_f)
+            out.append(sprinkle(ip, rng, wi) + "." + sprinkle(fp, rng, wf))
+        out.append(ip + "." + fp)
+    return out
+
+
 def int_long_strings(f, rng, n):
     out = []
     for s in long_strings(f, rng, n, api="pi"):
@@ -407,68 +444,125 @@ def insertions(f, api, s, rng, many):
 
 
 # ---------------------------------------------------------------------------------------------
-# streams (first stage: implementation + Lean model)
+# streams (first stage: implementation + Lean model) and the implementation-only bulk
 
-def _float_first_stage(f, tier, rng):
-    """[(partial, string)] for one separator format"""
+def model_reliable_long(f):
+    """formats on which many-digit inputs are compared with the Lean model's *value*. The model computes the exact
+    value of the digits; the implementation re-scans the stored integer / fraction slices, and does so wrongly
+    (a) for I+T+C without L (`prev = None` at the start of the slice), (b) whenever integer and fraction flags differ
+    (slow.rs parses the fraction slice with `integer_iter`). Those inputs are judged in `post` on the implementation
+    alone (R1 / R3) and reported there."""
+    fi, ff = f.flags["integer"], f.flags["fraction"]
+    return fi == ff and fi != "itc"
+
+
+def float_inputs(f, tier, rng):
+    """-> (model_pairs, impl_pairs): [(partial, string)] for one separator format. `model_pairs` go through `streams`
+    (implementation + Lean model), `impl_pairs` are run by `post` on the implementation only."""
     full, by_len = short_strings(f.radix, 3, 5 if tier == "quick" else 6)
-    out = []
+    model, impl = [], []
     for s in full:
-        out.append((0, s))
-        out.append((1, s))
+        model.append((0, s))
+        model.append((1, s))
     for n, lst in by_len.items():
+        dst = model if n <= 4 else impl
         for s in lst:
-            out.append((0, s))
+            dst.append((0, s))
         if n <= 4:
             for s in lst:
-                out.append((1, s))
-                out.append((1, s + "x"))
+                model.append((1, s))
+                impl.append((1, s + "x"))
     nl = 160 if tier == "quick" else 1200
+    dst = model if model_reliable_long(f) else impl
     for s in long_strings(f, rng, nl):
-        out.append((0, s))
+        dst.append((0, s))
         if rng.random() < 0.3:
-            out.append((1, s + rng.choice(["", "x", SEP, ".", "1" + SEP])))
+            dst.append((1, s + rng.choice(["", "x", SEP, ".", "1" + SEP])))
+    for s in halfway_strings(f, rng):
+        dst.append((0, s))
     for s in sepfree_grid(f, rng, tier != "quick"):
-        out.append((0, s))
+        model.append((0, s))
+    return model, impl
+
+
+def int_inputs(f, tier, rng):
+    """-> [(ty, partial, string)] for the integer parsers (implementation only: the integer model has no skip iterators)"""
+    out = []
+    strs = int_strings(f.radix, 5 if tier == "quick" else 6) + int_long_strings(f, rng, 60 if tier == "quick" else 400)
+    for k, s in enumerate(dict.fromkeys(strs)):
+        for ty in INT_TYPES:
+            for p in ((0, 1) if len(s) <= 4 or k % 3 == 0 else (0,)):
+                out.append((ty, p, s))
     return out
 
 
+def _all_inputs(tier, seed):
+    """deterministic in (tier, seed): {fmt: (model_pairs, impl_pairs, int_triples)}"""
+    import random
+    out = {}
+    for k, f in enumerate(FORMATS):
+        rng = random.Random(seed * 1009 + k)
+        m, i = float_inputs(f, tier, rng)
+        out[f.fmt] = (list(dict.fromkeys(m)), list(dict.fromkeys(i)), int_inputs(f, tier, rng) if f.is_int else [])
+    return out
+
+
+_inputs_cache = {}
+
+
+def all_inputs(tier, seed):
+    if (tier, seed) not in _inputs_cache:
+        _inputs_cache[(tier, seed)] = _all_inputs(tier, seed)
+    return _inputs_cache[(tier, seed)]
+
+
+def _ty(tier, k):
+    return FLOAT_TY if (tier == "quick" or k % 5) else "f32"
+
+
 def streams(tier, rng, fs, profile):
+    import os
+    seed = int(os.environ.get("VERIF_SEED", "20260926"))
+    inputs = all_inputs(tier, seed)
     out = []
-    cp_strings = {}    # counterpart fmt -> {(ty, partial, s)} : separator-free inputs the sep formats were given
+    cp = {}    # counterpart fmt -> {(ty, partial, s)}: the separator-free inputs given to the separator formats
     for radix in ("dec", "hex"):
         ops = []
         iops = []
         for f in FORMATS:
             if f.radix != radix:
                 continue
-            pairs = _float_first_stage(f, tier, rng)
-            seen = set()
-            for p, s in pairs:
-                if (p, s) in seen:
-                    continue
-                seen.add((p, s))
-                ty = FLOAT_TY if (tier == "quick" or rng.random() < 0.8) else "f32"
+            model, impl, ints = inputs[f.fmt]
+            for k, (p, s) in enumerate(model):
+                ty = _ty(tier, k)
                 ops.append(mk_pf(f, f.fmt, ty, p, s))
                 if SEP not in s:
-                    cp_strings.setdefault(("pf", f.counterpart), set()).add((ty, p, s))
-            if f.is_int:
-                strs = int_strings(radix, 5 if tier == "quick" else 6) + int_long_strings(f, rng, 60 if tier == "quick" else 400)
-                for k, s in enumerate(dict.fromkeys(strs)):
-                    for ty in INT_TYPES:
-                        for p in ((0, 1) if len(s) <= 4 or k % 3 == 0 else (0,)):
-                            iops.append(mk_pi(f.fmt, ty, p, s))
-                            if SEP not in s:
-                                cp_strings.setdefault(("pi", f.counterpart), set()).add((ty, p, s))
+                    cp.setdefault(f.counterpart, set()).add((ty, p, s))
+            # a sample of the integer ops goes through the driver too (the model column is "-" for them)
+            for ty, p, s in ints[::40]:
+                iops.append(mk_pi(f.fmt, ty, p, s))
         out.append(("sep-float-" + radix, ops))
         out.append(("sep-int-" + radix, iops))
     cops = []
-    for (api, cfmt), items in sorted(cp_strings.items()):
+    for cfmt, items in sorted(cp.items()):
         f = COUNTERPARTS[cfmt]
         for ty, p, s in sorted(items):
-            cops.append(mk_pf(f, cfmt, ty, p, s) if api == "pf" else mk_pi(cfmt, ty, p, s))
+            cops.append(mk_pf(f, cfmt, ty, p, s))
     out.append(("counterparts", cops))
     return out
+
+
+def impl_only_ops(tier, seed):
+    """the bulk that `post` runs on the implementation alone"""
+    inputs = all_inputs(tier, seed)
+    ops = []
+    for f in FORMATS:
+        model, impl, ints = inputs[f.fmt]
+        for k, (p, s) in enumerate(impl):
+            ops.append(mk_pf(f, f.fmt, _ty(tier, k), p, s))
+        for ty, p, s in ints:
+            ops.append(mk_pi(f.fmt, ty, p, s))
+    return ops
 
 
 def nontrivial(op, res):
@@ -662,12 +756,12 @@ def post(ctx, bins):
         for (fs2, profile2, sname), (ops, impl, drv) in ctx["results"].items():
             if (fs2, profile2) == (fs, profile) and sname != "corpus":
                 j.add_results(ops, impl)
-        # exhaustive strings of the next length, implementation only (quick: a seed-rotated third of the formats)
+        # implementation-only bulk: plausible strings of length 5 (6), junk-suffixed partial inputs, integers, the
+        # many-digit inputs of formats whose re-scan is known to differ from the model; then the exhaustive
+        # strings of the next length
+        ops = impl_only_ops(tier, ctx["seed"])
         extra = extra_exhaustive(tier, ctx["seed"])
-        ops = []
         for k, f in enumerate(FORMATS):
-            if tier == "quick" and (k + ctx["seed"]) % 3 != 0:
-                continue
             for s in extra[f.radix]:
                 ops.append(mk_pf(f, f.fmt, FLOAT_TY, 0, s))
         j.run_missing(ops)
